@@ -206,23 +206,29 @@ func readBufioSize(reader *bufio.Reader, size int64) ([]byte, error, bool) {
 }
 
 func readBufioLine(reader *bufio.Reader) ([]byte, error, bool) {
+	// a line ends at "\n" and only that byte is dropped: a "\r" in front of it
+	// is a byte of the line (bufio's ReadLine would drop it too)
 	result := []byte{}
 	var buf []byte
 	var err error
-	var isprefix bool = true
-	for isprefix {
-		buf, isprefix, err = reader.ReadLine()
-		if err != nil {
+	sawNL := false
+	for {
+		buf, err = reader.ReadSlice('\n')
+		result = append(result, buf...)
+		if err != bufio.ErrBufferFull {
 			break
 		}
-		result = append(result, buf...)
+	}
+	if n := len(result); n > 0 && result[n-1] == '\n' {
+		result = result[:n-1]
+		sawNL = true
 	}
 	e := err
 	if e != nil && e == io.EOF {
 		e = nil
 	}
 
-	return result, e, len(result) == 0 && err == io.EOF
+	return result, e, len(result) == 0 && !sawNL && err == io.EOF
 }
 
 func int2Fb(val int) int {
